@@ -3,6 +3,7 @@ package render
 import (
 	"bytes"
 	"io"
+	"strings"
 	"unicode"
 
 	"github.com/osteele/liquid/verifhook"
@@ -17,24 +18,39 @@ type trimWriter struct {
 	trim bool
 }
 
-// Write writes b to the current buffer. If the trim flag is set,
-// a prefix whitespace trim on b is performed before writing it to
-// the buffer and the trim flag is unset. If the trim flag was not
-// set, the current buffer is flushed before b is written.
-// Write only returns the bytes written to w during a flush.
+// Write writes output that is not literal template text - a value printed by an
+// object, the output of a tag, the body of a raw block. Whitespace control acts
+// on the literal text next to a tag only, so this output is never trimmed: it
+// goes to w as it is, after whatever text is still buffered.
 func (tw *trimWriter) Write(b []byte) (n int, err error) {
 	verifhook.Yield(verifhook.SiteTrimWrite)
-	// Flush first in either case, so that a later TrimLeft can only reach the
-	// text written here and not older output that is still sitting in the buffer.
 	if n, err = tw.Flush(); err != nil {
 		return n, err
 	}
+	if len(b) == 0 {
+		return 0, nil
+	}
+	tw.trim = false
+	return tw.w.Write(b)
+}
+
+// WriteText writes literal template text. If the trim flag is set, a prefix
+// whitespace trim on s is performed before writing it to the buffer and the
+// trim flag is unset. The text stays in the buffer, where a following
+// TrimLeft can still reach it, until the next write.
+func (tw *trimWriter) WriteText(s string) error {
+	verifhook.Yield(verifhook.SiteTrimWrite)
+	// Flush first in either case, so that a later TrimLeft can only reach the
+	// text written here and not older output that is still sitting in the buffer.
+	if _, err := tw.Flush(); err != nil {
+		return err
+	}
 	if tw.trim {
-		b = bytes.TrimLeftFunc(b, unicode.IsSpace)
+		s = strings.TrimLeftFunc(s, unicode.IsSpace)
 		tw.trim = false
 	}
-	_, err = tw.buf.Write(b)
-	return
+	_, err := tw.buf.WriteString(s)
+	return err
 }
 
 // TrimLeft trims all whitespaces before the trim node, i.e. the whitespace
